@@ -23,7 +23,7 @@ for arg in sys.argv[3:]:
 seed_dir = os.path.join(wt, '_seed', which)
 patch = os.path.join(seed_dir, 'patch.diff')
 demo = os.path.join(seed_dir, 'demo.py')
-env = dict(os.environ, PYTHONPATH=os.path.join(wt, 'src'))
+env = dict(os.environ, PYTHONPATH=os.path.join(wt, 'src'), DASK_SCHEDULER='synchronous')
 
 
 def sh(*cmd, **kw):
